@@ -1,7 +1,8 @@
 (* C06 - Marshal emits the canonical deterministic protobuf bytes. *)
 From Coq Require Import List ZArith Bool.
 From Pico Require Import Base.Res Base.Mach Wire.Wire Schema.Types Schema.Scalar Ref.Ref
-  Schema.ScalarProofs Enc.Enc Enc.EncProofs Wire.VarintProofs Wire.WireProofs.
+  Schema.ScalarProofs Enc.Enc Enc.EncProofs Wire.VarintProofs Wire.WireProofs
+  Schema.Gen Schema.Interp Schema.EncSpec Schema.EncProgProofs Schema.TEnc gen.Schemas.
 Import ListNotations.
 Open Scope Z_scope.
 
@@ -21,10 +22,34 @@ Theorem C06_field : forall k always num v buf, scalar_ok k v = true -> valid_num
   enc_single k always num v buf = buf ++ (if negb always && spec_default k v then [] else spec_field k num v).
 Proof. exact enc_single_spec. Qed.
 
-(* PARTIAL: field order (ascending numbers), packing of repeated scalars and "unknown last"
-   are properties of the generated programs; pico_marshal = ref_encode for whole messages is
-   decided per run (model = implementation = ref_encode = protobuf-go deterministic output,
-   and the literal fixpoint test bytes = remarshal(parse(bytes)) on the implementation). *)
+(* C06_strong: for EVERY schema the generator accepts (oneof members not repeated/maps, as protobuf
+   itself demands) and EVERY well-typed value - any nesting depth, any payload size, any number of
+   fields - Marshal of the generated code never panics and returns exactly ref_encode: fields in
+   ascending number order, repeated scalars packed, minimal varints for every tag/length/value,
+   default-valued singular fields omitted, presence-carrying fields always written, captured
+   unknown fields last. (Map entries appear in the iteration order, which is a parameter.) *)
+Theorem C06_strong : forall fuel s progs idx fs un,
+  gen_all s = GOk progs -> wf_schema_enc s = true -> msg_ok fuel progs idx (Some (fs, un)) = true ->
+  pico_marshal fuel progs idx (fs, un) = Ok (ref_encode fuel s idx fs un).
+Proof. exact T_enc. Qed.
+
+(* PARTIAL: C06 itself is the fixpoint form "bytes = reference serialisation of the message those
+   bytes denote"; with C06_strong it reduces to the spec-level fact ref_encode (ref_decode b) = b on
+   the image of ref_encode, which is not proved here: ref_encode is validated against protobuf-go's
+   deterministic Marshal on every run, and the implementation is tested with the literal fixpoint
+   oracle (bytes == remarshal(parse(bytes))). *)
+
+(* the premises are inhabited by the shipped schemas and by real values: AllTypes with content *)
+Definition demo_progs := match gen_all schema_test with GOk p => p | GError _ => [] end.
+Definition demo_alltypes : list val :=
+  [VInt (-1); VInt 2; VInt 3; VInt 4; VInt (-5); VInt (-6); VInt 7; VInt 8; VInt (-9); VInt (-10); VInt 2147483648; VInt 9223372036854775808;
+   VInt 1; VBytes [104; 105]; VBytes [0]; VMsg (Some ([VInt 7], []));
+   VList [VInt 1; VInt (-1)]; VList []; VList []; VList []; VList [VInt (-64)]; VList []; VList []; VList []; VList []; VList []; VList []; VList []; VList [VInt 1; VInt 0]; VList [VBytes [97]]; VList [];
+   VList [VMsg (Some ([VInt 0], [])); VMsg None]].
+Example C06_premises_inhabited :
+  wf_schema_enc schema_test = true /\ msg_ok 5 demo_progs 3 (Some (demo_alltypes, [])) = true /\
+  pico_marshal 5 demo_progs 3 (demo_alltypes, []) = Ok (ref_encode 5 schema_test 3 demo_alltypes []).
+Proof. repeat split; vm_compute; reflexivity. Qed.
 
 Example C06_nonvacuous : len_ok (repeat 7 16384) /\ spec_varint 16384 = [128; 128; 1] /\ spec_varint 2097152 = [128; 128; 128; 1].
 Proof. repeat split; vm_compute; reflexivity. Qed.
@@ -33,3 +58,4 @@ Print Assumptions C06_minimal_varint.
 Print Assumptions C06_minimal_tag.
 Print Assumptions C06_minimal_length.
 Print Assumptions C06_field.
+Print Assumptions C06_strong.
